@@ -41,7 +41,9 @@ K17 = "refusal:ArithmConversionException@atom_cond.py:to_arithm:non-integer-fini
 K18 = "refusal:KeyError@rec_builder.py:_get_last_assign_index:goal-over-folded-loop-constant"
 K19 = "refusal:NormalizingException@atom_cond.py:get_normalized:fixed-loop-constant-as-atom-variable"
 K20 = "refusal:NormalizingException@conditions_normalizer.py:_try_abstract_failed_condition:simultaneous-assignment-inside-a-branch-of-a-condition-variable:_t-temporary-untyped"
-KNOWN_SHAPES = {K20: "simult-in-branch", K12: "nested-reassign", K16: "categorical-in-branch", K17: "nonint-values", K18: "goal-over-constant", K19: "const-in-cond"}
+K21 = "refusal:NormalizingException@conditions_normalizer.py:_try_abstract_failed_condition:finite-variable-reassigned-from-itself:unconditional-version-typed-with-its-default"
+K22 = "refusal:NormalizingException@conditions_normalizer.py:_try_abstract_failed_condition:finite-variable-reassigned-from-itself:guarded-version-typed-with-its-default"
+KNOWN_SHAPES = {K21: "multi-assign-finite", K22: "multi-assign-finite", K20: "simult-in-branch", K12: "nested-reassign", K16: "categorical-in-branch", K17: "nonint-values", K18: "goal-over-constant", K19: "const-in-cond"}
 
 
 # ---- class membership, decided in the kernel --------------------------------------------------
@@ -63,6 +65,7 @@ def inclass_files(progs, per_file=8):
 
 
 def parse_inclass(out):
+    out = re.sub(r"\s+", " ", out)     # Coq breaks lines anywhere
     bools = [[x.strip() == "true" for x in m.group(1).split(";")] for m in re.finditer(r"=\s*\[([^\]]*)\]\s*:\s*list bool", out)]
     pairs = []
     for m in re.finditer(r"=\s*\(\s*(\[[^\]]*\])\s*,\s*(\[[^\]]*\])\s*\)\s*:\s*list (?:var|string) \* list (?:var|string)", out, re.S):
@@ -95,6 +98,9 @@ def refusal_signature(p, opts, text, goal, stage, exc):
             return K16
         if re.search(r"Can't normalize condition ", msg) and classgen.simult_in_branch_assigns_condition_variable(p):
             return K20
+        found, uncond = classgen.self_updating_reassignment(p)
+        if re.search(r"Can't normalize condition ", msg) and found:
+            return K21 if uncond else K22
     if et == "ArithmConversionException" and fn == "atom_cond.py:to_arithm":
         if re.fullmatch(r"Atom \w+ == -?\d+/\d+ is not normalized", msg) and classgen.has_nonint_constant(p):
             return K17
@@ -171,6 +177,7 @@ def graph_part(ctx, n_graphs, only=None):
         rows = P.lst([P.lst([f"{x}%nat" for x in row]) for row in g])
         body += f"Eval vm_compute in (defective_of {rows}).\n"
     ok, out = lib.coq_run(ctx, "graphs", body, timeout=300)
+    out = re.sub(r"\s+", " ", out)
     model = [[int(x) for x in re.findall(r"(\d+)%nat", m.group(1))]
              for m in re.finditer(r"=\s*\[([^\]]*)\]\s*:\s*list nat", out)] if ok else []
     if len(model) != len(graphs):
@@ -230,7 +237,7 @@ def worklist_part(ctx, cases):
         size = 1
         for vs in nt.values():
             size *= max(1, len(vs))
-        allfin = set(flat["variables"]) <= set(nt) and not symbols and size <= 200
+        allfin = set(flat["variables"]) <= set(nt) and not symbols and size <= 64
         if allfin:
             body += "Eval vm_compute in (universe_closedb (polar_step cm0 fp0 T0) (reduced_universe T0), prod_sizes T0).\n"
         files.append((f"wl_{j}", body))
@@ -240,6 +247,7 @@ def worklist_part(ctx, cases):
     n_fin = 0
     for (name, _), (text, m, pm, symbols, allfin) in zip(files, kept):
         ok, o = outs[name]
+        o = re.sub(r"\s+", " ", o)
         ctx.coverage["obligations"] += 1
         mm = re.search(r"=\s*\((true|false),\s*(\[.*?\])\)\s*:\s*bool \* list", o, re.S) if ok else None
         closed = re.search(r"=\s*(true|false)\s*:\s*bool", o) if ok else None
@@ -249,7 +257,7 @@ def worklist_part(ctx, cases):
             continue
         sym = set(symbols)
         model_ms = set()
-        for one in re.finditer(r"\[((?:\s*\(\"[^\"]*\",\s*\d+(?:%nat)?\);?)*)\s*\]", mm.group(2)[1:-1]):
+        for one in re.finditer(r"\[((?:\(\"[^\"]*\",\d+(?:%nat)?\);?)*)\]", re.sub(r"\s+", "", mm.group(2))[1:-1]):
             items = re.findall(r'\("([^"]*)",\s*(\d+)', one.group(1))
             if items:
                 model_ms.add(tuple(sorted((x, int(k)) for x, k in items if x not in sym)))
@@ -429,6 +437,12 @@ def run(ctx):
                               f"program inside the documented class ({shape}) refused by {r['stage']}: {e['etype']} in {e['raiser']}: {e['msg']}\n{text}")
             continue
         st["accepted"] += 1
+        if inclass and r.get("abstracted"):
+            found, uncond = classgen.self_updating_reassignment(p)
+            sig = (K21 if uncond else K22) if found else f"abstracted-condition:{text}"
+            ctx.violation(sig, dict(replay, abstracted=r["abstracted"]),
+                          f"a condition of a program inside the documented class ({shape}) is abstracted by a Bernoulli with an unknown "
+                          f"probability {r['abstracted']}: every result is partial (symbolic in _prob)\n{text}")
 
         # -- acceptance-level correspondences
         if cl is not None:
